@@ -217,6 +217,15 @@ def impl(case) -> str:
 
 
 def oracle(case, obs):
+    """total: whatever the observation looks like, the answer is a verdict, never an exception"""
+    try:
+        return _oracle(case, obs)
+    except Exception as e:                      # an observation the parser below does not understand is a failure
+        return Failure(case, f"observation not of the expected form ({type(e).__name__}: {e}): {obs[:300]}",
+                       "unexpected-observation")
+
+
+def _oracle(case, obs):
     if not case.get("hyp", True):
         return None
     body, fin = obs.split(" |", 1)
@@ -251,6 +260,9 @@ def oracle(case, obs):
         if op[0] in ("dlv", "dlv2") and ":" in st:
             for e in st.split(":", 1)[1].split(","):
                 if e.startswith("F"):
+                    if not e[1:].split("=")[0].isdigit():
+                        return Failure(case, f"op {k} {op}: a Deferred that no request returned was fired ({st})",
+                                       "unknown-deferred-fired")
                     i = int(e[1:].split("=")[0])
                     if i not in issued:
                         return Failure(case, f"op {k}: Deferred {i} fired before being issued", "fired-unissued")
